@@ -271,3 +271,27 @@ for _u in _c17["UNITS"]:
         _u.template = "../C17/" + _u.template
         UNITS.append(_u)
 META["trusted_base"] = list(META.get("trusted_base", [])) + ["units c17.* are the C17 units of the same name (specs/C17/ciq.c) with their trusted base"]
+
+
+# ---- the per-OS-thread worker identity (added by main after seeded change C11-8 was missed) ----------------------------------------------
+TSS_CPP = "libs/pika/threading_base/src/thread_num_tss.cpp"
+_TSS_RULES = [
+    Sub(r"\bthreads::detail::", "", None),
+    Sub(r"std::swap\(([^,()]+),\s*(\w+)\);", r"VX_SWAP(\1, \2);", None),
+    Sub(r"\b(get_\w+_tss)\(\)", r"\1()", None),
+]
+_TSS_FUNCS = [("set_global", r"std::size_t set_global_thread_num_tss\(std::size_t num\)", "set_global_thread_num_tss", "U_SET_GLOBAL"),
+              ("get_global", r"std::size_t get_global_thread_num_tss\(\)", "get_global_thread_num_tss", "U_GET_GLOBAL"),
+              ("set_local", r"std::size_t set_local_thread_num_tss\(std::size_t num\)", "set_local_thread_num_tss", "U_SET_LOCAL"),
+              ("get_local", r"std::size_t get_local_thread_num_tss\(\)", "get_local_thread_num_tss", "U_GET_LOCAL"),
+              ("set_pool", r"std::size_t set_thread_pool_num_tss\(std::size_t num\)", "set_thread_pool_num_tss", "U_SET_POOL"),
+              ("get_pool", r"std::size_t get_thread_pool_num_tss\(\)", "get_thread_pool_num_tss", "U_GET_POOL"),
+              ("pub_global", r"std::size_t get_worker_thread_num\(\)", "get_worker_thread_num", "U_PUB_GLOBAL"),
+              ("pub_local", r"std::size_t get_local_worker_thread_num\(\)", "get_local_worker_thread_num", "U_PUB_LOCAL"),
+              ("pub_pool", r"std::size_t get_thread_pool_num\(\)", "get_thread_pool_num", "U_PUB_POOL")]
+_TSS_LIFTS = lambda: {k: Lift(TSS_CPP, loc, rules=_TSS_RULES) for (k, loc, fn, d) in _TSS_FUNCS}
+for (_k, _loc, _fn, _d) in _TSS_FUNCS:
+    UNITS.append(Unit("tss." + _fn, "tss.c", defines=[_d], enforce=_fn, lifts=_TSS_LIFTS(),
+                      funcs=[TSS_CPP + ": " + _fn], min_obligations=2,
+                      doc="F: the worker identity accessor reads / replaces exactly the number of its own name"))
+META["trusted_base"] = list(META.get("trusted_base", [])) + ["specs/C11/tss.c: the thread_local thread_nums object is one C global (the view of one OS thread)"]
